@@ -16,7 +16,7 @@ import re
 from typing import Callable, Iterable, Iterator, TypeVar, Union
 
 from .utils import canonicalize_version
-from .version import Version
+from .version import InvalidVersion, Version
 
 UnparsedVersion = Union[Version, str]
 UnparsedVersionVar = TypeVar("UnparsedVersionVar", bound=UnparsedVersion)
@@ -269,8 +269,12 @@ class Specifier(BaseSpecifier):
 
             # Parse the version, and if it is a pre-release than this
             # specifier allows pre-releases.
-            if Version(version).is_prerelease:
-                return True
+            try:
+                if Version(version).is_prerelease:
+                    return True
+            except InvalidVersion:
+                # Only reachable for ``===``, whose text need not be a version.
+                return False
 
         return False
 
